@@ -367,6 +367,15 @@ def run(ctx):
                 has_none = any(x[0] == "const" and ("NONE" in repr(x) or (len(x) > 3 and "NONE" in str(x[3]))) or (x[0] == "agg" and x[3] and strip_sym(x[3][0])[:3] == ("const", "int", 0)) for x in alts)
                 has_mask = any(is_param(x, 1) for x in alts)
                 okm = has_none and has_mask
+            # ... and what was stored reaches the recency tracker as it is: Recency::new(clock, self.recency_mask,
+            # self.idle_timeout) — a timeout raised to the upkeep interval (or otherwise adjusted) on the way keeps idle
+            # metrics in the output beyond the timeout the user gave
+            for g_ in p.fns:
+                for c_ in nonforeign_calls(g_):
+                    if c_.fn is g_ and c_.is_("Recency<K>::new") and len(c_.args) == 3:
+                        a_ = [strip_sym(x) for x in arg_syms(c_)]
+                        direct = a_[2][0] == "field" and a_[2][2] == "idle_timeout" and a_[1][0] == "field" and a_[1][2] == "recency_mask"
+                        chk.ob("C12.d", f"{g_.path} [configured timeout and mask reach Recency::new unchanged]", direct, "Recency::new(clock, self.recency_mask, self.idle_timeout)" if direct else f"the recency tracker is built with {sym_str(a_[1])[:40]} / {sym_str(a_[2])[:60]}, not with the configured mask and timeout themselves", c_.loc(), nontrivial=False)
             chk.ob("C12.d", it.path, okt and okm, "idle_timeout(mask, t): timeout stored; mask := NONE when t is None else the given mask" if okt and okm else "idle_timeout does not force MetricKindMask::NONE when no timeout is given", it.loc())
 
 
